@@ -222,8 +222,8 @@ fn main() {
 
 prog("pointer_to_member_args", """
 struct S { a: i32, b: vec3<i32>, c: array<i32, 3> }
-fn inc(p: ptr<function, i32>) { *p = *p + 1; }
-fn addv(p: ptr<function, vec3<i32>>, k: i32) { (*p).y = (*p).y + k; (*p).z = (*p).x; }
+fn inc(p: ptr<function, i32>) { *p += 1; }
+fn addv(p: ptr<function, vec3<i32>>, k: i32) { (*p).y += k; (*p).z = (*p).x; }
 fn fill(p: ptr<function, array<i32, 3>>, k: i32) { for (var i = 0; i < 3; i++) { (*p)[i] = k + i; } }
 @compute @workgroup_size(1)
 fn main() {
@@ -451,7 +451,7 @@ fn main() {
 """, ("small", "boundary"))
 
 prog("logical_short_circuit", """
-fn side(p: ptr<function, u32>, r: bool) -> bool { *p = *p + 1u; return r; }
+fn side(p: ptr<function, u32>, r: bool) -> bool { *p += 1u; return r; }
 @compute @workgroup_size(1)
 fn main() {
   var calls = 0u;
@@ -642,8 +642,8 @@ fn main() {
   var common: input;
   common.sample = abs_(vec3_); common.texture = main_(uint);
   let out = common.sample + common.texture;
-  var gl_x = out; gl_x += 1;
-  var flat = gl_x * 2; var smooth = flat + 1; var shared_ = smooth;
+  var glx = out; glx += 1;
+  var flat = glx * 2; var smooth = flat + 1; var shared_ = smooth;
   oi[0] = vec3_; oi[1] = out; oi[2] = shared_;
 }
 """, ("small", "boundary"))
